@@ -77,7 +77,11 @@ def gen_script(rng, opts=None):
         elif r < 0.995 or not opts.get("restart"):
             steps.append(["stream", rng.choices(["full", "changed", "full" if opts.get("no_stale") else "stale", [rng.randrange(8) for _ in range(rng.randrange(1, 4))]], [0.4, 0.3, 0.1, 0.2])[0]])
         else:
-            steps.append(["restart"]); steps.append(["book", "OPEN"])
+            # after a restart the first order-stream image may be processed BEFORE the first market book (the market is then created by the adoption)
+            steps.append(["restart"])
+            if rng.random() < 0.5:
+                steps.append(["stream", "full"])
+            steps.append(["book", "OPEN"])
     if opts.get("drain", True):
         # quiescence: answer every call, send everything still packaged, answer, then the exchange's latest full snapshot (twice)
         steps.append(["drain", [gen_outcome(rng, opts=opts) for _ in range(3)]])
@@ -97,7 +101,7 @@ def events_of(step, ob):
         for r in res["drained"]:
             evs += events_of(["deliver"], {"res": r})
         return evs or ["LNop"]
-    if step[0] in ("book", "xfill", "xlapse", "xforeign", "advance") or res is None:
+    if step[0] in ("book", "xfill", "xlapse", "xforeign", "advance", "quiet") or res is None:
         return ["LNop"]
     if step[0] == "restart":
         return ["LRestart"]
